@@ -107,6 +107,22 @@ def witnesses(tier, seed):
             W.append(mk_read('f64', [N], [Axis('iseq', f, l, s)], 'mutable'))
     for (f0, l0, s0), (f1, l1, s1) in zip(rng.sample(all_triples(4, 2, False), 8), rng.sample(all_triples(6, 3, False), 8)):
         W.append(mk_read('f32', [4, 6], [Axis('iseq', f0, l0, s0), Axis('iseq', f1, l1, s1)], 'mutable'))
+    # ---- the vector routes of the views inside expressions: last extent a multiple of a vector width, contiguous (step 1) and strided
+    # (step 2, 3: gathers through vector_setter), const and mutable parents, dynamic and compile-time ranges, ranks 1-3
+    # (coverage accounting showed the eval<T>(i) members of the const/nD view classes and the strided gathers unreached)
+    k = 0
+    for t in T3:
+        for (L, s) in [(4, 1), (8, 2), (16, 1), (16, 2), (16, 3), (32, 1), (8, 3)]:
+            N = 1 + L * s + 2
+            for kind in ('seq', 'fseq'):
+                for variant in ('expr', 'mexpr'):
+                    k += 1
+                    f0 = k % 2
+                    W.append(mk_read(t, [N], [Axis(kind, f0, f0 + L * s, s)], variant))
+                    if (k + L) % 2 == 0:
+                        W.append(mk_read(t, [3, N], [Axis(kind, 0, 3, 2) if kind == 'seq' else Axis('fseq', 0, 3, 2), Axis(kind, f0, f0 + L * s, s)], variant))
+                    if L <= 16 and (k + L) % 3 == 0:
+                        W.append(mk_read(t, [2, 3, N], [Axis(kind, 0, 2, 1), Axis(kind, 1, 3, 1), Axis(kind, f0, f0 + L * s, s)], variant))
     return group_sort(W)
 
 
